@@ -190,14 +190,28 @@ def invalidate_attrs(obj: Any, attr: str, invalidation_map: Dict[str, Set[str]] 
     if not invalidation_map:
         return
 
-    # Handle invalidation
-    for invalidatee in invalidation_map.get(attr, set()) | invalidation_map.get(
-        "*", set()
-    ):
-        if invalidatee == attr:
-            continue
+    # Collect everything that depends on `attr`, directly or through a chain of
+    # other attributes. The chain is followed whether or not the attributes in
+    # between currently hold a value (a cache that was never filled has nothing
+    # to delete, but what is derived from it may well be stored).
+    wildcard = invalidation_map.get("*", set())
+    invalidatees = []
+    seen = {attr}
+    pending = [attr]
+    while pending:
+        for invalidatee in invalidation_map.get(pending.pop(), set()) | wildcard:
+            if invalidatee not in seen:
+                seen.add(invalidatee)
+                invalidatees.append(invalidatee)
+                pending.append(invalidatee)
+
+    # Handle invalidation. Each attribute is reset/deleted exactly once: the
+    # chains have been followed above, and so the deletions must not cascade
+    # again (attributes that invalidate each other would otherwise keep
+    # resetting one another).
+    for invalidatee in invalidatees:
         try:
-            delattr(obj, invalidatee)
+            obj.__delattr__(invalidatee, skip_invalidation=True)
         except AttributeError:
             pass
 
